@@ -25,19 +25,14 @@ func (c *Ctx) pairRule(rule, reader, writer string, skip map[string]bool) (r, w 
 	if r == nil || w == nil {
 		return
 	}
-	if why := c.codecOpaque(r, 0); why != "" {
-		c.R.Infof(rule, name(r), "pair:"+shortID(name(w)), c.Pos(r.Pos()), "not decided for this shape: the reader uses "+why)
+	rl, whyR := c.wireLeaves(r, true)
+	wl, whyW := c.wireLeaves(w, false)
+	if whyR != "" {
+		c.R.Infof(rule, name(r), "pair:"+shortID(name(w)), c.Pos(r.Pos()), "not decided for this shape: the reader's wire sequence cannot be extracted ("+whyR+")")
 		return
 	}
-	if why := c.codecOpaque(w, 0); why != "" {
-		c.R.Infof(rule, name(r), "pair:"+shortID(name(w)), c.Pos(r.Pos()), "not decided for this shape: the writer uses "+why)
-		return
-	}
-	rl := c.leavesOf(r, true, 0)
-	wl := c.leavesOf(w, false, 0)
-	if len(rl) == 0 || len(wl) == 0 {
-		c.R.Undecf(rule, name(r), "table", c.Pos(r.Pos()), "reader and writer must use the encoding/binary idioms the table extraction understands",
-			fmt.Sprintf("extracted %d reader and %d writer entries", len(rl), len(wl)))
+	if whyW != "" {
+		c.R.Infof(rule, name(r), "pair:"+shortID(name(w)), c.Pos(r.Pos()), "not decided for this shape: the writer's wire sequence cannot be extracted ("+whyW+")")
 		return
 	}
 	if skip["@uefi-body"] {
@@ -60,11 +55,11 @@ func (c *Ctx) layoutRule(rule string, fn *ssa.Function, isRead bool, filter func
 	if fn == nil {
 		return
 	}
-	if why := c.codecOpaque(fn, 0); why != "" {
-		c.R.Infof(rule, name(fn), "layout:"+specName, c.Pos(fn.Pos()), "not decided for this shape: the codec uses "+why)
+	ls, why := c.wireLeaves(fn, isRead)
+	if why != "" {
+		c.R.Infof(rule, name(fn), "layout:"+specName, c.Pos(fn.Pos()), "not decided for this shape: the wire sequence cannot be extracted ("+why+")")
 		return
 	}
-	ls := c.leavesOf(fn, isRead, 0)
 	var got []leaf
 	for _, l := range ls {
 		if l.alias && isRead {
@@ -882,4 +877,24 @@ func normaliseUEFIBody(ls []leaf, isWriter bool) []leaf {
 		out = append(out, l)
 	}
 	return out
+}
+
+// wireLeaves: the wire leaves of a codec function: from the encoding/binary
+// tables and the packing idiom when they model the whole function, otherwise
+// from the deep wire extraction; why != "" if neither can describe it.
+func (c *Ctx) wireLeaves(fn *ssa.Function, isRead bool) ([]leaf, string) {
+	opaque := c.codecOpaque(fn, 0)
+	if opaque == "" {
+		if ls := c.leavesOf(fn, isRead, 0); len(ls) > 0 {
+			return ls, ""
+		}
+	}
+	if ls, ok, why := c.deepLeaves(fn, isRead); ok {
+		return ls, ""
+	} else if opaque == "" {
+		opaque = why
+	} else {
+		opaque += "; deep extraction: " + why
+	}
+	return nil, opaque
 }
